@@ -144,6 +144,8 @@ pub fn election_win(dbs: &Arc<Databases>) -> Response {
         Err(e) => log::warn!("Request::ElectionWin sender.send Error: {}", e),
     }
 
+    #[cfg(feature = "verif")]
+    crate::verif::yield_point("election_win.before_state_switch");
     dbs.node_state
         .swap(ClusterRole::Primary as usize, Ordering::Relaxed);
     Response::Ok {}
